@@ -598,3 +598,56 @@ def never_bound_names(fn, mi, prog=None):
             seen.add(n.id)
             out.append(n)
     return out
+
+
+def sum_accumulators(fn):
+    """[(name, init node or None, [(op class, term node, stmt)], loop)] for the running sums of a function: a name updated by an augmented
+    assignment inside a loop and initialised before that loop at the same block level.  Used by rules that say 'X is the sum of T over L':
+    the initial value must be zero and every update an addition -- a '-=' or a non-zero start is a different quantity."""
+    out = []
+
+    def blocks(node):
+        for f in ('body', 'orelse', 'finalbody'):
+            b = getattr(node, f, None)
+            if isinstance(b, list) and b and isinstance(b[0], ast.stmt):
+                yield b
+    for node in ast.walk(fn):
+        for body in blocks(node):
+            for k, lp in enumerate(body):
+                if not isinstance(lp, (ast.For, ast.While)):
+                    continue
+                ups = {}
+                for st in ast.walk(lp):
+                    if isinstance(st, ast.AugAssign) and isinstance(st.target, ast.Name):
+                        ups.setdefault(st.target.id, []).append((type(st.op), st.value, st))
+                for name, us in ups.items():
+                    init = None
+                    for prev in body[:k]:
+                        if isinstance(prev, ast.Assign) and len(prev.targets) == 1 and isinstance(prev.targets[0], ast.Name) and prev.targets[0].id == name:
+                            init = prev
+                    out.append((name, init, us, lp))
+    return out
+
+
+def check_sum(run, rule, key, relpath, fn, name, what):
+    """the running sum `name` of fn starts at zero and only adds: reports the deviations, returns True when it has the form"""
+    accs = [a for a in sum_accumulators(fn) if a[0] == name]
+    if not accs:
+        return False
+    ok = True
+    for nm, init, us, lp in accs:
+        if init is not None and not (isinstance(init.value, ast.Constant) and init.value.value in (0, 0.0)):
+            if isinstance(init.value, ast.Constant) and isinstance(init.value.value, (int, float)):
+                run.subject(rule)
+                run.fail(rule, key + '|start:' + nm, relpath, init.lineno, "%s: the running sum '%s' starts at %s, not at zero" % (what, nm, norm(init.value)))
+                ok = False
+        for op, term, st in us:
+            if op is ast.Sub:
+                run.subject(rule)
+                run.fail(rule, key + '|subtracts:' + nm, relpath, st.lineno, "%s: '%s' has %s subtracted where the terms of a sum are added" % (what, nm, norm(term)[:50]))
+                ok = False
+            elif op in (ast.Mult, ast.Div):
+                run.subject(rule)
+                run.fail(rule, key + '|scaled:' + nm, relpath, st.lineno, "%s: '%s' is multiplied / divided inside the loop (%s) where the terms of a sum are added" % (what, nm, norm(st)[:50]))
+                ok = False
+    return ok
